@@ -91,6 +91,76 @@ def t_row(K, prop, fid, soft=False, source_locals=(1,), content_locals=(), any_e
               "content dependent)" % (st["blocks"], st["branches"], st["content_dependent_branches"]), loc, dict(analysed=st))
 
 
+# ---------------------------------------------------------------- D rows (index-sensitive dependence)
+INTERNAL_ERRORS = []
+D_STATS = {"rows": 0, "imprecise": 0, "steps": 0}
+
+
+def d_row(K, prop, fid, name, shape, make_args, required, inst=None, soft=False, out_of=None, total=False):
+    """Every (output leaf, input leaf) pair in `required` must be a possible dependence of `fid` at this shape
+    (analysis/deps.py).  required: list of (path, labels, text); path selects a leaf of the abstract return value
+    (`out_of(ret, interp)` may supply the value to select from instead, e.g. what a `&mut self` points to afterwards).
+    One obligation per (function, shape); the detail lists every missing pair."""
+    from . import deps
+    F = K.F
+    key = "%s:D:%s:%s:%s" % (prop, K.config, fid, name)
+    root = inst if inst is not None else F.root_of(fid)
+    if root is None:
+        if soft or F.lookup(fid) is not None:
+            return Ob(key, prop, "D", K.config, fid, UNDECIDED, "`%s` is not a separate non-generic function here; not decided" % fid)
+        return missing(prop, "D", K, fid)
+    loc = F.loc(F.instances[root]["d"])
+    D_STATS["rows"] += 1
+    deps.selfcheck()
+    try:
+        ret, I = deps.analyse(F, root, shape, make_args)
+        val = out_of(ret, I) if out_of else ret
+    except deps.Imprecise as e:
+        D_STATS["imprecise"] += 1
+        return Ob(key, prop, "D", K.config, fid, UNDECIDED, "dependence analysis gave up (%s): nothing is concluded" % e, loc)
+    except deps.Diverge:
+        if total:
+            # every successor of every data-dependent branch was followed and every path ends in a panic (a check that
+            # fails for the shape alone, an explicit panic, `unreachable`): no input of this shape returns
+            return Ob(key, prop, "D", K.config, fid, VIOLATED,
+                      "at shape %s no path through this function returns: it panics for every input of this shape, although the "
+                      "contract gives it a result for all of them" % (shape,), loc)
+        return Ob(key, prop, "D", K.config, fid, UNDECIDED, "no returning path at this shape: nothing is concluded", loc)
+    except RecursionError:
+        return Ob(key, prop, "D", K.config, fid, UNDECIDED, "dependence analysis too deep: nothing is concluded", loc)
+    except (KeyboardInterrupt, MemoryError):
+        raise
+    except Exception as e:      # a program shape the interpreter does not anticipate decides nothing
+        import traceback
+        INTERNAL_ERRORS.append("D %s: %s" % (fid, traceback.format_exc(limit=6)))
+        return Ob(key, prop, "D", K.config, fid, UNDECIDED, "internal analysis error (%s: %s); nothing decided for this row" % (type(e).__name__, str(e)[:200]), loc)
+    D_STATS["steps"] += I.steps
+    missing_pairs = []
+    undecided = []
+    pairs = 0
+    for path, labels, text in required:
+        leafv = deps.select(val, path)
+        if leafv is None:
+            undecided.append("%s: the returned value has no such component" % text)
+            continue
+        have = deps.alldeps(leafv)
+        pairs += len(labels)
+        lack = sorted(set(labels) - have)
+        if lack:
+            missing_pairs.append("%s cannot depend on {%s} (it may depend only on {%s})" % (text, ", ".join(lack), ", ".join(sorted(have))[:300]))
+    extra = dict(shape=dict(shape), pairs=pairs, steps=I.steps)
+    if missing_pairs:
+        return Ob(key, prop, "D", K.config, fid, VIOLATED,
+                  "at shape %s no data or control flow carries these inputs to these outputs, although the specified function varies "
+                  "with them: %s" % (shape, "; ".join(missing_pairs[:6]) + (" ... (%d more)" % (len(missing_pairs) - 6) if len(missing_pairs) > 6 else "")),
+                  loc, extra)
+    if undecided:
+        return Ob(key, prop, "D", K.config, fid, UNDECIDED, "; ".join(undecided[:3]), loc, extra)
+    return Ob(key, prop, "D", K.config, fid, PROVED,
+              "all %d required (output leaf, input leaf) dependences are possible at shape %s (%d interpreter steps)" % (pairs, shape, I.steps),
+              loc, extra)
+
+
 # ---------------------------------------------------------------- F rows
 def f_row(K, prop, fid, term, tag="", negative=False):
     """Positive row  fid == term  (or negative row  fid =/= term)."""
@@ -527,7 +597,6 @@ def _show_exp(e):
 
 
 # ---------------------------------------------------------------- robustness: an internal error decides nothing
-INTERNAL_ERRORS = []
 
 
 def _guard(fn, family, many):
